@@ -856,10 +856,111 @@ mod pc_stream {
         v
     }
 
+    /// The offerer's extra (non-BUNDLE, second m-line) transport: `create_offer` creates its `IceConn` at
+    /// 0.0.0.0:0 with latching enabled, before any remote description exists. Datagrams sent to the video
+    /// port reach that `IceConn`; the answer then retargets it from signaling (`sg`). Same step language
+    /// (`Pkt`, one `Answer(T)`); model prefix `init,0,0,maxp,0 en`.
+    pub async fn exec_extra(c: &PcCase) -> Result<PcOut, String> {
+        let net = Net::new().await.ok_or("could not bind the loopback sockets")?;
+        let mut cfg = RtcConfiguration::default();
+        cfg.transport_mode = TransportMode::Rtp;
+        cfg.enable_latching = true;
+        cfg.bind_ip = Some("127.0.0.1".into());
+        cfg.disable_ipv6 = true;
+        cfg.probation_max_packets = if c.maxp == 0 { None } else { Some(c.maxp) };
+        cfg.sdp_compatibility = rustrtc::config::SdpCompatibilityMode::LegacySip; // no BUNDLE: one transport per m-line
+        let pc = PeerConnection::new(cfg);
+        pc.add_transceiver(MediaKind::Audio, TransceiverDirection::SendRecv);
+        pc.add_transceiver(MediaKind::Video, TransceiverDirection::SendRecv);
+        let offer = pc.create_offer().await.map_err(|e| format!("create_offer: {e:?}"))?;
+        let offer_text = offer.to_sdp_string();
+        pc.set_local_description(offer).map_err(|e| format!("set_local: {e:?}"))?;
+        let (held, _) = pc.verif_rtp_transports();
+        let conn = held.last().ok_or_else(|| format!("no extra transport after create_offer; offer:\n{offer_text}"))?.ice_conn();
+        let vport: u16 = offer_text.lines().find_map(|l| l.strip_prefix("m=video ")).and_then(|r| r.split(' ').next()).and_then(|p| p.parse().ok()).ok_or("no m=video port")?;
+        let local = SocketAddr::new(IpAddr::V4(Ipv4Addr::new(127, 0, 0, 1)), vport);
+        let observe = |net: &Net| { let a = *conn.remote_addr.read(); let r = if a.port() == 0 && a.ip().is_unspecified() { (0, 0) } else { net.sym(a) };
+            format!("{}:{}/{}", r.0, r.1, conn.rtp_latched.load(Ordering::Relaxed) as u8) };
+        let mut out = PcOut { model_ops: vec![format!("init,0,0,{},0", c.maxp), "en".into(), "|".into()], obs: vec![observe(&net)], fails: vec![], stun_rewrites: 0, stun_moved_open: 0, split_rtcp: 0, hidden: vec![] };
+        for (k, st) in c.steps.iter().enumerate() {
+            match st {
+                Step::Pkt(i, b) => {
+                    let n0 = conn.rx_packets.load(Ordering::Relaxed);
+                    net.socks[*i].send_to(b, local).await.map_err(|e| format!("send: {e}"))?;
+                    for _ in 0..500 { if conn.rx_packets.load(Ordering::Relaxed) > n0 { break; } tokio::time::sleep(Duration::from_millis(2)).await; }
+                    if conn.rx_packets.load(Ordering::Relaxed) == n0 { return Err(format!("step {k}: datagram to the video port {vport} not delivered to the extra IceConn")); }
+                    out.model_ops.push(format!("p,{},{},{}", SYM[*i].0, SYM[*i].1, hex(b)));
+                }
+                Step::Answer(i) => {
+                    // the offer's own media sections, re-addressed: audio at S, video at the given endpoint
+                    let mut video = false;
+                    let mut ans = String::new();
+                    for l in offer_text.lines() {
+                        let addr = if video { net.real(*i) } else { net.real(0) };
+                        if l.starts_with("m=audio ") || l.starts_with("m=video ") {
+                            video = l.starts_with("m=video ");
+                            let addr = if video { net.real(*i) } else { net.real(0) };
+                            let mut f: Vec<String> = l.split(' ').map(|x| x.to_string()).collect(); f[1] = addr.port().to_string();
+                            ans.push_str(&f.join(" ")); ans.push_str("\r\n");
+                            ans.push_str(&format!("c=IN IP4 {}\r\n", addr.ip()));
+                        } else if l.starts_with("c=") { if ans.contains("m=") { continue; } ans.push_str(&format!("c=IN IP4 {}\r\n", addr.ip())); }
+                        else if l.starts_with("a=candidate") || l.starts_with("a=ice-") || l.starts_with("a=rtcp:") || l.starts_with("a=ssrc") || l.starts_with("a=end-of-candidates") { continue; }
+                        else { ans.push_str(l); ans.push_str("\r\n"); }
+                    }
+                    let d = SessionDescription::parse(SdpType::Answer, &ans).map_err(|e| format!("sdp: {e:?}"))?;
+                    pc.set_remote_description(d).await.map_err(|e| format!("set_remote(answer): {e:?}"))?;
+                    out.model_ops.push(format!("sg,{},{}", SYM[*i].0, SYM[*i].1));
+                }
+                _ => return Err("only packets and one answer in an extra-transport scenario".into()),
+            }
+            tokio::time::sleep(Duration::from_millis(10)).await;
+            out.obs.push(observe(&net));
+            { let (on, exp, mx, pr) = conn.verif_latch_state(); out.hidden.push(format!("on={on} expected={exp} maxp={mx} prob={:?}", pr.map(|p| (p.0, p.1, p.2.len())))); }
+        }
+        pc.close();
+        Ok(out)
+    }
+
+    fn extra_scenarios() -> Vec<PcCase> {
+        let p = |i: usize, m: bool, seq: u16| Step::Pkt(i, rtp(m, seq, seq as u32, SSRC));
+        vec![
+            // RTCP, DTLS-like and garbage before anything is known must not set the destination; RTP (no SSRC known) does
+            PcCase { maxp: 6, ssrc: false, mux: true, steps: vec![Step::Pkt(1, rtcp()), Step::Pkt(2, vec![22, 254, 253, 0, 0, 0, 0, 0, 0, 0, 0, 0, 1, 0]), Step::Pkt(3, vec![200, 1, 2, 3]),
+                p(1, false, 10), p(2, false, 20), p(2, false, 21), p(2, false, 22), Step::Pkt(3, rtcp()), Step::Answer(4), Step::Pkt(1, rtcp()), p(3, true, 5), Step::Pkt(1, rtcp())] },
+            PcCase { maxp: 0, ssrc: false, mux: true, steps: vec![Step::Pkt(3, rtcp()), Step::Pkt(3, rtp(false, 1, 1, 5)[..8].to_vec()), p(3, false, 1), p(1, true, 2), Step::Answer(4), Step::Pkt(2, rtcp()), p(2, false, 9)] },
+        ]
+    }
+
     pub fn run(run: &mut Run, rt: &tokio::runtime::Runtime, args: &Args) {
         for c in scenarios(args) { emit(run, rt, &c); }
+        for c in extra_scenarios() {
+            let text = case_text(&c).replacen("pc ", "pc extra:", 1);
+            match rt.block_on(exec_extra(&c)) {
+                Err(e) => { run.count("pc_setup_errors"); run.fail("pc:scenario-could-not-run", &text, &e); }
+                Ok(o) => {
+                    run.case("pc", &o.model_ops.join(" "), &o.obs.join(" "), true);
+                    run.count("pc_extra_transport_scenarios");
+                    // clause 1 / 4 directly: before the answer only RTP may set the unset destination
+                    let mut prev = o.obs[0].clone();
+                    for (k, st) in c.steps.iter().enumerate() {
+                        if let Step::Pkt(_, b) = st { if !(is_rtp(b) && b.len() >= 12) && o.obs[k + 1] != prev {
+                            run.fail("pc:move:unset-destination-of-extra-transport-set-by-non-rtp", &text, &format!("step {k}: {} -> {}", prev, o.obs[k + 1])); } }
+                        prev = o.obs[k + 1].clone();
+                    }
+                }
+            }
+        }
     }
     pub fn replay(rt: &tokio::runtime::Runtime, case: &str) {
+        if let Some(rest) = case.strip_prefix("pc extra:") {
+            let c = parse(&format!("pc {rest}"));
+            match rt.block_on(exec_extra(&c)) {
+                Err(e) => println!("pc extra scenario could not run: {e}"),
+                Ok(o) => { println!("model ops: {}", o.model_ops.join(" ")); println!("impl: {}", o.obs.join(" "));
+                    for (i, h) in o.hidden.iter().enumerate() { println!("hidden[{i}]: {h}"); } }
+            }
+            return;
+        }
         let c = parse(case);
         match rt.block_on(exec(&c)) {
             Err(e) => println!("pc scenario could not run: {e}"),
